@@ -424,7 +424,10 @@ func unescape(lit []byte) string {
 	var str strings.Builder
 
 	for i := 0; i < len(lit); i++ {
-		if lit[i] == '\\' {
+		if lit[i] == '\\' && i+1 == len(lit) {
+			// A lone backslash (the lexer accepts it as a character class item).
+			str.WriteByte(lit[i])
+		} else if lit[i] == '\\' {
 			switch lit[i+1] {
 			case 'n':
 				str.WriteRune('\n')
@@ -454,7 +457,8 @@ func unescape(lit []byte) string {
 				str.WriteRune(hexToRune(string(lit[i+2 : i+10])))
 				i += 9
 			default:
-				panic("unreachable")
+				// Not an escape sequence: the backslash stands for itself.
+				str.WriteByte(lit[i])
 			}
 		} else {
 			str.WriteByte(lit[i])
